@@ -51,7 +51,7 @@ func c17Obj(id string) *cfgapi.BalloonsPolicy {
 	o.Labels = map[string]string{"verif-id": id}
 	if flavour == "inv" {
 		o.Spec.Config.BalloonDefs = []*balloons.BalloonDef{{
-			Name: "x",
+			Name:             "x",
 			MatchExpressions: []resmgr.Expression{{Key: "name", Op: resmgr.Equals, Values: []string{"a", "b"}}},
 		}}
 	}
